@@ -222,8 +222,9 @@ def run(ctx):
     if gbranch is not None:
         inner = [n for n in ast.walk(gbranch.if_node) if isinstance(n, ast.For)]
         rp = prog.func("flow.record.base.Record._pack")
-        ok = bool(inner) and any(isinstance(a, ast.Assign) and isinstance(a.targets[0], ast.Tuple) and len(a.targets[0].elts) in return_arities(rp)
-                                 for l in inner for a in ast.walk(l))
+        ok = bool(inner) and (any(isinstance(a, ast.Assign) and isinstance(a.targets[0], ast.Tuple) and len(a.targets[0].elts) in return_arities(rp)
+                                  for l in inner for a in ast.walk(l)) or
+                              any(isinstance(l.target, ast.Tuple) and len(l.target.elts) in return_arities(rp) for l in inner))
         ctx.check(ok, "R1.2", "subtype:grouped:member-arity", "members of a grouped record are not destructured as Record._pack() tuples", gbranch.if_node,
                   "members destructured as (identifier, values)")
 
@@ -360,38 +361,44 @@ def run(ctx):
     ctx.rule("R1.6", "length prefix: same struct format for pack and unpack; read(n) with n == calcsize(format); the packed length is len() of the blob written next")
     wr = ctx.anchor_func("flow.record.stream.RecordStreamWriter.write")
     rd = ctx.anchor_func("flow.record.stream.RecordStreamReader.read")
-    packs = [c for c in calls_in(wr) if call_name(c) == "struct.pack"]
-    unpacks = [c for c in calls_in(rd) if call_name(c) == "struct.unpack"]
-    ctx.floor("R1.6", "struct.pack sites in the writer", len(packs), 1)
-    ctx.floor("R1.6", "struct.unpack sites in the reader", len(unpacks), 1)
+    from .frame_common import assigned_from, struct_sites
+
+    packs = struct_sites(prog, wr, "pack")
+    unpacks = struct_sites(prog, rd, "unpack")
+    ctx.floor("R1.6", "length-prefix pack sites in the writer", len(packs), 1)
+    ctx.floor("R1.6", "length-prefix unpack sites in the reader", len(unpacks), 1)
     if packs and unpacks:
         import struct as _struct
 
-        fw = prog.fold(stream_m, packs[0].args[0])
-        fr = prog.fold(stream_m, unpacks[0].args[0])
-        ctx.check(fw == fr, "R1.6", "frame:length-format", f"writer packs the length with {fw!r}, reader unpacks with {fr!r}", packs[0], f"both use {fw!r}",
+        pcall, fw, pdata = packs[0]
+        ucall, fr, udata = unpacks[0]
+        ctx.check(fw == fr, "R1.6", "frame:length-format", f"writer packs the length with {fw!r}, reader unpacks with {fr!r}", pcall, f"both use {fw!r}",
                   key="R1.6:frame:format-mismatch")
         n = _struct.calcsize(fr)
-        # the bytes given to struct.unpack come from fp.read(n)
-        src = unpacks[0].args[1]
+        # the bytes given to unpack come from fp.read(n)
+        src = udata[0] if udata else None
         read_n = None
-        for st in walk_no_nested(rd):
-            if isinstance(st, ast.Assign) and norm(st.targets[0]) == norm(src) and isinstance(st.value, ast.Call) and \
-                    isinstance(st.value.func, ast.Attribute) and st.value.func.attr == "read" and st.lineno < unpacks[0].lineno:
-                try:
-                    read_n = prog.fold(stream_m, st.value.args[0])
-                except (NotConst, IndexError):
-                    read_n = None
-                break
+        if src is not None:
+            for st in walk_no_nested(rd):
+                if isinstance(st, ast.Assign) and norm(st.targets[0]) == norm(src) and isinstance(st.value, ast.Call) and \
+                        isinstance(st.value.func, ast.Attribute) and st.value.func.attr == "read" and st.lineno <= ucall.lineno:
+                    try:
+                        read_n = prog.fold(stream_m, st.value.args[0])
+                    except (NotConst, IndexError):
+                        read_n = None
+                    break
         ctx.check(read_n == n, "R1.6", "frame:prefix-read-size", f"the reader reads {read_n} bytes for a {n}-byte length prefix", rd, f"reads {n} bytes")
-        lens = [c for c in ast.walk(packs[0]) if isinstance(c, ast.Call) and call_name(c) == "len"]
+        # the packed length is len(<blob>) and <blob> is what is written next (names followed through single assignments)
+        from ..core import expand_aliases, single_assign_aliases
+
+        al = single_assign_aliases(wr)
+        lens = [c for a in pdata for c in ast.walk(expand_aliases(a, al)) if isinstance(c, ast.Call) and call_name(c) == "len"]
         blob = norm(lens[0].args[0]) if lens else None
         writes = [c for c in calls_in(wr) if isinstance(c.func, ast.Attribute) and c.func.attr == "write" and norm(c.func.value).endswith("fp")]
-        after = [w for w in writes if w.lineno > packs[0].lineno or (w.lineno == packs[0].lineno and w.col_offset > packs[0].col_offset and packs[0] not in list(ast.walk(w)))]
-        body_writes = [w for w in writes if packs[0] not in list(ast.walk(w))]
-        ok = blob is not None and len(body_writes) == 1 and norm(body_writes[0].args[0]) == blob
-        reassigned = [st for st in walk_no_nested(wr) if isinstance(st, ast.Assign) and norm(st.targets[0]) == blob] if blob else []
-        ctx.check(ok and len(reassigned) == 1, "R1.6", "frame:length-of-body", "the length prefix is not len() of the very object written as the frame body",
+        body_writes = [w for w in writes if pcall not in list(ast.walk(w)) and not any(
+            isinstance(x, ast.Name) and x.id in al and pcall in list(ast.walk(al[x.id])) for x in ast.walk(w))]
+        ok = blob is not None and len(body_writes) == 1 and norm(expand_aliases(body_writes[0].args[0], {k: v for k, v in al.items() if k != blob})) == blob
+        ctx.check(ok, "R1.6", "frame:length-of-body", "the length prefix is not len() of the very object written as the frame body",
                   wr, f"prefix = len({blob}); body = {blob}", key="R1.6:frame:length-of-other-object")
 
     # ------------------------------------------------------------------ R1.7 generated _unpack None-guards
